@@ -32,7 +32,7 @@ RULE = ("states = distinct (generated code, dataset) pairs reached by BFS from t
         "the reference interpreter and the model evaluator both produced values that were compared")
 ASSUMPTIONS = ["grid: parameters at init and 0.8*init, etas/eps in {0,+0.3,-0.2,+-0.1}; first 3 individuals of pheno",
                "refusals (ValueError/NotImplementedError/ModelError) of a transformation end the branch and are not failures"]
-BOUNDS = {"quick": "structural alphabet depth 2 from pheno and pheno+FO absorption, then one step of the full alphabet on depth<=1 states (cap 400 states)",
+BOUNDS = {"quick": "structural alphabet depth 2 from pheno and pheno+FO absorption, then one step of the full alphabet on depth<=1 states (cap 400 states); sibling round: every ordered pair (A, B) of the full alphabet derived from ONE start object",
           "thorough": "structural alphabet depth 3, full alphabet on depth<=2 states (cap 4000 states)"}
 
 START = ["pheno", "pheno_oral"]
@@ -55,13 +55,84 @@ def drive(tier):
     import sys
 
     mod = sys.modules[__name__]
-    return seqx.drive(mod, tier, START, depth_limit=2 if tier == "quick" else 3, max_states=400 if tier == "quick" else 4000)
+    results = seqx.drive(mod, tier, START, depth_limit=2 if tier == "quick" else 3, max_states=400 if tier == "quick" else 4000)
+    if any("harness_error" in r for r in results):
+        return results
+    # sibling round: two derivations from ONE parent object (the BFS gives every call a private dataset copy, so a
+    # transformation that writes into its argument's DataFrame would otherwise never reach the sibling's generated code)
+    from vlib import core, mgraph
+
+    shards = [("sib", s, a) for s in START for a in list(mgraph.ops("structural")) + list(mgraph.ops("other"))]
+    results.extend(core.pmap(mod.__name__, shards, tier))
+    return results
+
+
+def run_sibling_shard(shard, tier):
+    """M0 -> A (result used), then every B from the same M0 object: the model B must be the model B derived from a fresh M0;
+    where its canonical key differs the full state check runs on it."""
+    from vlib import mgraph
+
+    _, start, a = shard
+    res = {"states": 0, "transitions": 0, "evaluations": 0, "distinct_nontrivial": 0, "violations": [], "samples": [],
+           "outcomes": {}, "traces_validated_against_impl": 0, "sibling_pairs": 0, "sibling_keys_differing": 0}
+    m0 = mgraph.start_models()[start]
+    m0 = m0.replace(dataset=m0.dataset.copy())
+    ma, outcome = mgraph.apply(m0, a, private=False)
+    res["transitions"] += 1
+    if ma is None:
+        res["outcomes"]["sibling:first-refused"] = 1
+        return res
+    try:
+        ma.code  # the result is used (generated code is produced lazily)
+    except Exception:
+        pass
+    for b in list(mgraph.ops("structural")) + list(mgraph.ops("other")):
+        ref = mgraph.build((start, (b,)))
+        mb, _ = mgraph.apply(m0, b, private=False)
+        res["transitions"] += 1
+        res["sibling_pairs"] += 1
+        if ref is None or mb is None:
+            if (ref is None) != (mb is None):
+                res["violations"].append({"history": [start, [a, b]], "what": f"[{start}: {b} after deriving {a} from the same object] "
+                                          f"sibling: {b} is {'refused' if mb is None else 'accepted'} but "
+                                          f"{'accepted' if mb is None else 'refused'} on a fresh {start}", "class": "sibling"})
+            continue
+        try:
+            differs = mgraph.canon(mb) != mgraph.canon(ref)
+        except Exception as e:
+            res["violations"].append({"history": [start, [a, b]], "what": f"[{start}: {b} after deriving {a} from the same object] "
+                                      f"sibling: code generation failed: {type(e).__name__}: {str(e)[:120]}", "class": "sibling"})
+            continue
+        key = "sibling:same" if not differs else "sibling:differs"
+        res["outcomes"][key] = res["outcomes"].get(key, 0) + 1
+        if not differs:
+            continue
+        res["sibling_keys_differing"] += 1
+        res["states"] += 1
+        res["evaluations"] += 1
+        res["distinct_nontrivial"] += 1
+        res["traces_validated_against_impl"] += 1
+        try:
+            with mgraph.time_limit(globals().get("STATE_TIMEOUT", 300)):
+                fails, counters = check_state((start, (b,)), mb, tier)
+        except mgraph.CallTimeout:
+            fails, counters = [], {"state_timeouts": 1}
+        for k, v in counters.items():
+            res[k] = res.get(k, 0) + v
+        for f in fails[:60]:
+            res["violations"].append({"history": [start, [a, b]], "sibling": True,
+                                      "what": f"[{start}: {b} after deriving {a} from the same object] {f}", "class": classify_text(f)})
+    if not res["samples"]:
+        res["samples"].append(f"sibling plan: {start} -> {a} ; then every transformation from the same {start} object")
+    return res
 
 
 def run_shard(shard, tier):
     from vlib import seqx
     import sys
 
+    if shard[0] == "sib":
+        return run_sibling_shard(shard, tier)
     return seqx.run_level_shard(sys.modules[__name__], shard, tier, depth_limit=2 if tier == "quick" else 3)
 
 
@@ -244,7 +315,7 @@ def check_state(hist, model, tier):
             counters["distinct_nontrivial"] = 1
             counters["traces_validated_against_impl"] = 1
         if fails:
-            return fails[:3], counters
+            return fails[:10], counters
         # (c) write / read round trip
         try:
             with warnings.catch_warnings():
@@ -271,7 +342,7 @@ def check_state(hist, model, tier):
                 fails.append(f"roundtrip: re-read model evaluates differently: {d}")
         except (ireval.Unsupported, XUndef, ArithmeticError) as e:
             pass
-        return fails[:3], counters
+        return fails[:10], counters
     finally:
         shutil.rmtree(tmp, ignore_errors=True)
 
@@ -337,6 +408,21 @@ def replay(w):
     from vlib import mgraph
 
     start, labels = w["history"]
+    if w.get("sibling"):
+        a, b = labels
+        m0 = mgraph.start_models()[start]
+        m0 = m0.replace(dataset=m0.dataset.copy())
+        ma, _ = mgraph.apply(m0, a, private=False)
+        if ma is not None:
+            try:
+                ma.code
+            except Exception:
+                pass
+        model, _ = mgraph.apply(m0, b, private=False)
+        if model is None:
+            return ["replay: the sibling can no longer be built (a transformation is refused)"]
+        fails, _ = check_state((start, (b,)), model, "quick")
+        return fails
     model = mgraph.build((start, tuple(labels)))
     if model is None:
         return ["replay: the history can no longer be built (a transformation is refused)"]
